@@ -107,9 +107,15 @@ def setup(ctx):
     ctx.oracle("vocab", o_vocab)
     ctx.oracle("closed", o_closed)
 
+    import json as _json
+    import os as _os
+    with open(_os.path.join(_os.path.dirname(_os.path.dirname(_os.path.dirname(_os.path.abspath(__file__)))), "known_findings.json")) as _f:
+        _dup = next(x for x in _json.load(_f)["findings"] if x["id"] == "D16b")["velocity_bins_duplicates"]
+
     def kf_d16b(f):
-        bins = list(P.TkCfg(**f["input"]["cfg"]).tk().velocity_bins)
-        return d16_bins(bins) and f["clause"] in ("bijection", "size", "inverse", "closed")
+        # the bin COUNTS for which the unchanged get_velocity_bins repeats 127 — recorded data, not recomputed from the implementation
+        # under test (a change that makes other counts collide is a new violation)
+        return f["input"]["cfg"].get("velocity_bins", 1) in _dup and f["clause"] in ("bijection", "size", "inverse")
     ctx.kf_predicates["D16b"] = kf_d16b
 
 
@@ -135,6 +141,12 @@ def generate(ctx):
             cfgs.append(dict(num_tracks=rng.choice([1, 2]), velocity_bins=rng.choice([1, 2, 5]),
                              running=rng.random() < 0.5, fuse_track=rng.random() < 0.5, fuse_value=rng.random() < 0.5,
                              fuse_velocity=rng.random() < 0.5, pitch_range=rng.choice(RANGES), note_values=None))
+    # every bin count 1..40 (quick: a rotating third of them; thorough: all of 1..64) on a cheap configuration: the bin edges come from a helper
+    # whose rounding decides whether two bins collide — the counts that collide on the unchanged tree are recorded data (D16b)
+    span = range(1, 65) if ctx.thorough else [n for n in range(1, 41) if n % 3 == ctx.seed % 3 or n in (9, 14, 19, 20)]
+    for n in span:
+        cfgs.append(dict(num_tracks=1, velocity_bins=n, running=True, fuse_track=True, fuse_value=True, fuse_velocity=rng.random() < 0.5,
+                         pitch_range=RANGES[3], note_values=[12, 24]))
     # time-signature ranges other than the default, and *twins*: the same configuration again with exactly one parameter
     # changed, built in the same process (anything shared between tokeniser instances shows up on the second one)
     TS_RANGES = [(2, 16), (1, 17), (2, 24), (4, 12), (2, 8), (1, 32)]
